@@ -11,7 +11,6 @@ package tc
 //@ # ---- independent oracle: CIDR membership, byte by byte --------------------------------------------
 //@ pure func abyte32(a bv32, i int) byte = uint8(a >> bv32(8 * (3 - i)))
 //@ pure func abyte128(a bv128, i int) byte = uint8(a >> bv128(8 * (15 - i)))
-//@ pure func v4mapped(ip net.IP) bool = len(ip) == 16 && (forall i in 0..9 :: ip[i] == 0) && ip[10] == 255 && ip[11] == 255
 //@ pure func ip4byte(ip net.IP, i int) byte = ite(len(ip) == 4, ip[i], ip[12 + i])
 //@ pure func contains4(n *net.IPNet, a bv32) bool = forall i in 0..3 :: (abyte32(a, i) & n.Mask[i]) == (ip4byte(n.IP, i) & n.Mask[i])
 //@ pure func contains16(n *net.IPNet, a bv128) bool = forall i in 0..15 :: (abyte128(a, i) & n.Mask[i]) == (n.IP[i] & n.Mask[i])
